@@ -143,7 +143,211 @@ def run(rep, tier):
                (f.file + ":%d" % f.term(bad[0]).get("ln", f.line)) if bad else f.file + ":%d" % f.line)
     if ninst < 4:
         rep.fault("R18.4: only %d matcher(s) with a pushed-down state filter found" % ninst)
+    evaluator_agreement_rules(rep, prog)
     return rep.finish(EXPLAIN)
+
+
+def _sconst(k_):
+    """string value of a constant operand descriptor, else None"""
+    if not isinstance(k_, dict):
+        return None
+    if k_.get("str") is not None:
+        return k_["str"]
+    if k_.get("tyconst"):
+        return k_["tyconst"].strip('"')
+    return None
+
+
+def _str_table(f):
+    """(kind, key) -> value of a `match (kind, key) { (K, "k") => "v", .. }` function: extracted from the string comparisons and
+    the constant each comparison's true edge produces.  kind is None for `(_, "k")` arms."""
+    from .c06_db import _bool_switch
+    out = {}
+    kind_of = {}
+    for (sb, place, adt, m, els) in f.variant_edges():
+        if adt and adt.endswith("::ElementKind"):
+            for v, tb in m.items():
+                if tb != els:
+                    for b in f.reachable_from([tb], avoid={sb}):
+                        kind_of.setdefault(b, set()).add(v)
+    for e in f.calls_named(r"PartialEq.*::eq$"):
+        key = None
+        for a in e.args:
+            k_ = a.get("k") if isinstance(a, dict) else None
+            if _sconst(k_) is not None:
+                key = _sconst(k_)
+        if key is None:
+            continue
+        ft, tt = _bool_switch(f, e)
+        if tt is None:
+            continue
+        # the constant(s) produced on the true edge before any other comparison
+        stop = {x.block for x in f.calls_named(r"PartialEq.*::eq$") if x.block != e.block}
+        vals = set()
+        for b in f.reachable_from([tt], avoid=stop):
+            for st in f.stmts(b):
+                if st[0] == "A":
+                    for o in core._rvalue_operands(st[2]):
+                        k2 = (o.get("k") or {}) if isinstance(o, dict) else {}
+                        if _sconst(k2) is not None:
+                            vals.add(_sconst(k2))
+            t = f.term(b)
+            if t["k"] == "call":
+                for o in t["args"]:
+                    k2 = (o.get("k") or {}) if isinstance(o, dict) else {}
+                    if _sconst(k2) is not None:
+                        vals.add(_sconst(k2))
+        kinds = kind_of.get(e.block) or {None}
+        if len(kinds) >= 4:
+            kinds = {None}
+        for kd in kinds:
+            out[(kd, key)] = sorted(vals)
+    return out
+
+
+def evaluator_agreement_rules(rep, prog):
+    """R18.5: the historical evaluator is a second implementation of the pattern matcher.  What can be decided structurally is
+    that both read the same tables and apply the same constraints - not that their answers are equal."""
+    rep.rule("R18.5", "the present-time and the at-a-coordinate evaluators agree structurally: index columns exist, an id in the matcher does not drop the "
+             "index-backed constraints, only index-backed keys are normalised to text, the engine state is decided somewhere, candidates come in id order", floor=5)
+    M = nx.N + "::kql::matching"
+    co = prog.fn(M + "::column_of")
+    vk = prog.fn(M + "::view_key")
+    rep.saw(co, len(co.events))
+    rep.saw(vk, len(vk.events))
+    ctab = _str_table(co)
+    vtab = _str_table(vk)
+    if len(ctab) < 12 or len(vtab) < 5:
+        raise CheckerFault("anchor missing: column_of / view_key tables (%d / %d entries)" % (len(ctab), len(vtab)))
+    rep.note("column_of", {"%s.%s" % (k or "*", key): v for (k, key), v in sorted(ctab.items(), key=str)})
+    rep.note("view_key", {"%s.%s" % (k or "*", key): v for (k, key), v in sorted(vtab.items(), key=str)})
+
+    # (1) every column the matcher pushes into an index filter has an index on that kind's collection
+    created = {}
+    shared = set()
+    for f in prog.fns.values():
+        if not f.path.startswith(nx.N + "::store::") or f.kind == "Closure":
+            continue
+        body = prog.async_body(f) or f
+        cols = set()
+        for e in body.calls_named(r"Collection::create_btree_index(_nx)?$"):
+            for o in body.slice_back_op(e.args[1]) if len(e.args) > 1 else []:
+                if o[0] == "agg":
+                    for op in o[1][2].get("ops", []):
+                        if _sconst((op.get("k") or {}) if isinstance(op, dict) else {}) is not None:
+                            cols.add(_sconst(op["k"]))
+                elif o[0] == "const" and _sconst(o[1]) is not None:
+                    cols.add(_sconst(o[1]))
+        if cols:
+            created[f.path.rsplit("::", 1)[1]] = cols
+    init_of = {}
+    for name, cols in created.items():
+        low = name.lower()
+        for kd, frag in (("Concept", "concept"), ("Proposition", "proposition"), ("Assertion", "assertion"), ("Evidence", "evidence"), ("Activity", "activit")):
+            if frag in low:
+                init_of[kd] = cols
+        if "envelope" in low:
+            shared |= cols
+    rep.note("indexes_created", {k: sorted(v) for k, v in created.items()})
+    if len(init_of) < 5 or not shared:
+        raise CheckerFault("anchor missing: per-kind index creation functions (%s) / shared envelope indexes" % sorted(created))
+    for (kd, key), cols in sorted(ctab.items(), key=str):
+        for col in cols:
+            if col == "__id":
+                continue
+            for k2 in ([kd] if kd else sorted(init_of)):
+                have = init_of[k2] | shared
+                rep.ob("R18.5", "index-exists|%s.%s->%s" % (k2, key, col), col in have,
+                       "column_of pushes `{%s: ..}` on %s into a filter on column `%s`, and no function under store:: creates a B-tree index `%s` for that "
+                       "collection: the present answers an index error where AS OF answers rows" % (key, k2, col, col), co.file + ":%d" % co.line)
+
+    me = prog.fn(M + "::<impl Context>::match_element") if prog.has_fn(M + "::<impl Context>::match_element") else None
+    if me is None:
+        c_ = [f for f in prog.fns.values() if f.path.endswith("::match_element") and f.path.startswith(nx.N + "::kql::")]
+        if not c_:
+            raise CheckerFault("anchor missing: match_element")
+        me = prog.async_body(c_[0]) or c_[0]
+    rep.saw(me, len(me.events))
+    mt = me.calls_named(r"::matcher_text$")
+    cand = me.calls_named(r"Context.*::candidates$")
+    loads = me.calls_named(r"Context.*::load$")
+    cof = me.calls_named(r"matching::column_of$")
+    if not mt or not cand or not loads or not cof:
+        raise CheckerFault("anchor missing in match_element: matcher_text %d, candidates %d, load %d, column_of %d" % (len(mt), len(cand), len(loads), len(cof)))
+
+    # (2) a value constraint pushed into the index filter is only ever decided by the index: once one was pushed, the
+    #     candidate loop must not be reachable without the index query (naming an id must not bypass it)
+    # the pushes of a *matcher value* into the index filter: receiver is a Vec of anda_db filters, and the pushed text was
+    # produced by matcher_text (the default `state = active` filter is not a matcher value)
+    def _recv_ty(e):
+        pl = core.op_place(e.args[0]) if e.args else None
+        return me.locals[pl.l] if pl is not None else ""
+    pushes = [e for e in me.calls_named(r"Vec::<T, A>::push$|Vec::<T>::push$")
+              if "anda_db::query::Filter" in _recv_ty(e) and any(me.dominates(m_.block, e.block) for m_ in mt)]
+    rep.note("index_pushes", [e.where() for e in pushes])
+    if not pushes:
+        raise CheckerFault("anchor missing: the push of a matcher_text value into the index filters")
+    # the obligation concerns the present-time evaluation: at a coordinate nothing is decided by an index (every constraint goes
+    # to the view), so the exploration starts after is_historical() answered false
+    ih = me.calls_named(r"Context.*::is_historical$")
+    if len(ih) != 1 or me.term(ih[0].block)["k"] != "call" or me.term(ih[0].block).get("t") is None:
+        raise CheckerFault("anchor missing: the single is_historical() test of match_element")
+    t_ih = me.term(ih[0].block)
+    try:
+        at = valueflow.analyse(me, avoid={b for c in cand for b in (c.block, c.call_block)}, marks={e.block for e in pushes},
+                               start=t_ih["t"], init={t_ih["d"]["l"]: 0})
+        if not any(at.get(e.block) for e in pushes):
+            raise CheckerFault("match_element: the index push is not reached by the path exploration (abstraction too coarse)")
+        leak = any((("mark",), 1) in envf for l in loads for envf in at.get(l.block, ()) | at.get(l.call_block, set()))
+    except RuntimeError:
+        leak = None
+    rep.ob("R18.5", "id-pattern-keeps-index-constraints|match_element", leak is False,
+           "after a matcher value was pushed into the index filter the candidate loop is reachable without the index query (the `id` shortcut): "
+           "`{id: \"C-1\", name: \"Mallory\"}` answers C-1 now and nothing AS OF the same coordinate" if leak else "path exploration exceeded its state budget",
+           pushes[0].where())
+
+    # (3) the text normalisation is applied to index-backed keys only (the present path leaves every other value as written)
+    bad = []
+    for m_ in mt:
+        guarded = False
+        for (sb, place, adt, mm, els) in me.variant_edges():
+            if adt == "core::option::Option" and "Some" in mm and mm["Some"] != els and me.dominates(mm["Some"], m_.call_block):
+                if any(o[0] == "call" and o[1].name.endswith("matching::column_of") for o in me.slice_back_local(place.l, proj=place)):
+                    guarded = True
+        for q in me.calls_named(r"Option::<T>::is_some$"):
+            if any(o[0] == "call" and o[1].name.endswith("matching::column_of") for o in me.slice_back_op(q.args[0])):
+                heads = {x.block for x in me.calls_named(r"Iterator>?::next$") if me.dominates(x.block, q.block)}
+                r_ = valueflow.reachable_if_result(me, q, 0, avoid=heads)
+                if m_.call_block not in r_ and m_.block not in r_ and me.dominates(q.block, m_.call_block):
+                    guarded = True
+        if not guarded:
+            bad.append(m_)
+    rep.ob("R18.5", "text-normalisation-only-for-index-keys|match_element", not bad,
+           "matcher_text (which refuses every value that is not a string) runs for keys column_of does not list: at a coordinate `{confidence: 0.9}` "
+           "or `{aliases: []}` is a TypeMismatch where the present compares the value", (bad[0].where() if bad else me.file))
+
+    # (4) the engine state lives in the view's `_system` envelope, not among the payload members a key names by default: a
+    #     state constraint decided on the view needs its own view_key arm - or is decided on the element itself
+    on_view = (None, "state") in vtab or any(key == "state" for (_, key) in vtab)
+    on_elem = [e for e in me.calls_named(r"store::Element::state$") if any(me.dominates(l.block, e.block) or me.can_reach([l.block], [e.block]) for l in loads)]
+    rep.ob("R18.5", "state-constraint-decided-at-a-coordinate|match_element", on_view or bool(on_elem),
+           "at a coordinate a `{state: ..}` constraint is compared with the view member view_key names, view_key has no arm for `state` (the view carries it "
+           "at _system.state) and the matcher never reads Element::state: every state-constrained pattern answers nothing in the past", vk.file + ":%d" % vk.line)
+
+    # (5) the present enumerates candidates in ascending row id; the reconstruction from the version log must not hand them out
+    #     in the text order of their ids ("A-10" < "A-2"): the projection ledger and float aggregates are order-sensitive
+    ea = prog.fn(nx.N + "::store::history::<impl Store>::elements_at") if prog.has_fn(nx.N + "::store::history::<impl Store>::elements_at") else None
+    if ea is None:
+        c_ = [f for f in prog.fns.values() if f.path.endswith("::elements_at") and "::store::" in f.path and f.kind != "Closure"]
+        if not c_:
+            raise CheckerFault("anchor missing: Store::elements_at")
+        ea = prog.async_body(c_[0]) or c_[0]
+    rep.saw(ea, len(ea.events))
+    text_keyed = [t for t in ea.locals if "BTreeMap<alloc::string::String" in t and "ElementVersionRow" in t]
+    sorts = ea.calls_named(r"slice::<impl \[T\]>::sort(_by|_by_key|_unstable|_unstable_by|_unstable_by_key|_by_cached_key)?$")
+    rep.ob("R18.5", "candidates-in-id-order|elements_at", not text_keyed or bool(sorts),
+           "elements_at reduces the log into a map keyed by the id's text and returns its values unsorted: with ten elements of a kind the past visits "
+           "A-1, A-10, A-11, A-2 .. where the present visits A-1, A-2 .. - assertion_ids of a belief, SUM / AVG of confidences differ", ea.file + ":%d" % ea.line)
 
 
 def read_context_rules(rep, rule, prog):
